@@ -269,7 +269,12 @@ func runTrace(w *tr.W, rng *rand.Rand, src, kind string, ccap, rcap, rep int, pl
 	}
 	r.q.(qa.Keeper).SetKeep(func(x interface{}) { r.got, r.haveGot = x, true })
 	w.Emit(reset)
+	var earlier []int
 	for _, a := range plan {
+		qa.Dress(rng.Intn, kind, rep, &a, earlier) // the item value is a dimension of the history
+		if (a.Op == "add" || a.Op == "addw") && a.Vk == qa.VkDefault && rep == 2 {
+			earlier = append(earlier, a.V)
+		}
 		r.step(a)
 	}
 	r.drain(rng)
